@@ -39,6 +39,9 @@ type WScen struct {
 	Exit       int  `json:"exit"` // 0 ok, 1 mw error, 2 handler error, 3 handler panic, 4 create fail
 	FailAt     int  `json:"fail_at"`
 	CloseFails bool `json:"close_fails"`
+	// Outer: the incoming request context is derived from a long-lived scope of the same provider
+	// (e.g. a server whose base context is an application scope); the request must still get its own scope
+	Outer bool `json:"outer,omitempty"`
 }
 
 type HScen struct {
@@ -67,6 +70,7 @@ type wrec struct {
 	mu      sync.Mutex
 	events  []string
 	scopeID string
+	appID   string // identity of the long-lived scope the request context derives from, if any
 	closed  int32
 }
 
@@ -82,6 +86,10 @@ func (r *wrec) see(s godi.Scope, ev string) {
 	defer r.mu.Unlock()
 	if s == nil {
 		r.events = append(r.events, "WForeignScope")
+		return
+	}
+	if r.appID != "" && s.ID() == r.appID {
+		r.events = append(r.events, "WForeignScope") // the callback was handed the long-lived scope, not a scope of the request
 		return
 	}
 	if r.scopeID == "" {
@@ -142,6 +150,10 @@ var errMw = errors.New("middleware says no")
 
 // runRequest performs one request through the given integration; rec comes in through the request context
 func runRequest(integ int, p godi.Provider, nmw int, exit, failAt int, rec *wrec) int {
+	return runRequestCtx(integ, p, nmw, exit, failAt, rec, context.Background())
+}
+
+func runRequestCtx(integ int, p godi.Provider, nmw int, exit, failAt int, rec *wrec, base context.Context) int {
 	mwFail := func(i int) error {
 		if exit == 1 && i == failAt {
 			return errMw
@@ -199,7 +211,7 @@ func runRequest(integ int, p godi.Provider, nmw int, exit, failAt int, rec *wrec
 			}()
 			mw(handler).ServeHTTP(w, r)
 		})
-		req := httptest.NewRequest("GET", "/", nil).WithContext(context.WithValue(context.Background(), recKey{}, rec))
+		req := httptest.NewRequest("GET", "/", nil).WithContext(context.WithValue(base, recKey{}, rec))
 		w := httptest.NewRecorder()
 		outer.ServeHTTP(w, req)
 		return w.Code
@@ -231,7 +243,7 @@ func runRequest(integ int, p godi.Provider, nmw int, exit, failAt int, rec *wrec
 				panic("handler panics")
 			}
 		})
-		req := httptest.NewRequest("GET", "/", nil).WithContext(context.WithValue(context.Background(), recKey{}, rec))
+		req := httptest.NewRequest("GET", "/", nil).WithContext(context.WithValue(base, recKey{}, rec))
 		w := httptest.NewRecorder()
 		e.ServeHTTP(w, req)
 		return w.Code
@@ -273,7 +285,7 @@ func runRequest(integ int, p godi.Provider, nmw int, exit, failAt int, rec *wrec
 			}
 			return c.NoContent(200)
 		})
-		req := httptest.NewRequest("GET", "/", nil).WithContext(context.WithValue(context.Background(), recKey{}, rec))
+		req := httptest.NewRequest("GET", "/", nil).WithContext(context.WithValue(base, recKey{}, rec))
 		w := httptest.NewRecorder()
 		e.ServeHTTP(w, req)
 		return w.Code
@@ -281,7 +293,7 @@ func runRequest(integ int, p godi.Provider, nmw int, exit, failAt int, rec *wrec
 		app := fiber.New(fiber.Config{DisableStartupMessage: true})
 		app.Use(fiberrecover.New())
 		app.Use(func(c *fiber.Ctx) error {
-			c.SetUserContext(context.WithValue(context.Background(), recKey{}, rec))
+			c.SetUserContext(context.WithValue(base, recKey{}, rec))
 			return c.Next()
 		})
 		opts := []godifiber.Option{
@@ -334,7 +346,19 @@ func runWCase(c *WCase) {
 			_ = p.Close()
 		}
 		rec := &wrec{}
-		c.Status = runRequest(s.Integ, p, s.NMw, s.Exit, s.FailAt, rec)
+		base := context.Background()
+		var app godi.Scope
+		if s.Outer && s.Exit != 4 {
+			app, _ = p.CreateScope(context.Background())
+			if app != nil {
+				base = app.Context()
+				rec.appID = app.ID()
+			}
+		}
+		c.Status = runRequestCtx(s.Integ, p, s.NMw, s.Exit, s.FailAt, rec, base)
+		if app != nil && godi.VerifCacheLen(app) == -1 {
+			rec.add("WForeignScope") // the request closed the long-lived scope
+		}
 		_ = p.Close()
 		rec.mu.Lock()
 		c.Events = append([]string(nil), rec.events...)
@@ -564,6 +588,11 @@ func genWebCases(seed int64, n int, thorough bool) []WCase {
 				}
 				for f := 0; f < nmw; f++ {
 					cases = append(cases, WCase{Kind: "request", W: &WScen{Integ: integ, NMw: nmw, Exit: 1, FailAt: f, CloseFails: cf}})
+				}
+				if nmw <= 2 {
+					for _, exit := range []int{0, 3} {
+						cases = append(cases, WCase{Kind: "request", W: &WScen{Integ: integ, NMw: nmw, Exit: exit, CloseFails: cf, Outer: true}})
+					}
 				}
 			}
 		}
